@@ -85,13 +85,23 @@ func genC12(seed uint64, run int, tier string) *RunSpec {
 }
 
 func c12RunOne(spec *RunSpec, op OpSpec) (Outcome, simrt.Report, *SimFS) {
+	out, _, rep, sfs := c12RunTwo(spec, op, nil)
+	return out, rep, sfs
+}
+
+// c12RunTwo runs op and then, on the same engine (same pools, same caches), the operation `after`.
+func c12RunTwo(spec *RunSpec, op OpSpec, after *OpSpec) (Outcome, Outcome, simrt.Report, *SimFS) {
 	simrt.ResetGlobals()
 	sfs := NewSimFS(spec.Files, nil, spec.Faults)
 	simrt.Begin(spec.Kernel)
 	eng := NewEngine(spec.Engine, sfs)
 	out := eng.Exec(0, op, nil)
+	var next Outcome
+	if after != nil {
+		next = eng.Exec(1, *after, nil)
+	}
 	rep := simrt.End()
-	return out, rep, sfs
+	return out, next, rep, sfs
 }
 
 func execC12(spec *RunSpec) *Result {
@@ -228,9 +238,14 @@ func execC12(spec *RunSpec) *Result {
 				op.Ctx = CtxSpec{}
 				op.Reader.FailAfter = -1
 				op.Writer = WriterSpec{FailAt: k, Form: f}
-				o, rp, _ := c12RunOne(spec, op)
-				res.addStat("cases", 1)
+				// "when it returns nil the writer has received the complete document": also the call after a failed
+				// one, on the same engine - whatever the failed write left in buffers and pools
+				o, next, rp, _ := c12RunTwo(spec, op, &refOp)
+				res.addStat("cases", 2)
 				res.addStat("steps", rp.Steps)
+				if o.WriterFired && !ref.IsErr && len(spec.Faults) == 0 && !next.IsErr && next.Panic == "" && !next.Overrun && !bytes.Equal(next.Out, ref.Out) {
+					res.violateSpec(narrowed(op), "C12", "incomplete-on-nil", sig("incomplete-on-nil-after-failed-write", 0), "the render after a failed write (offset %d, form %d) returned nil but the writer holds %d bytes, the complete document has %d: %q", k, f, len(next.Out), len(ref.Out), clip(string(next.Out), 160))
+				}
 				if o.WriterFired {
 					res.addStat("fault_writer_fired", 1)
 					nontrivial(fmt.Sprintf("w/%s/%s/%d/%s", base.Entry, layout, f, offClass(k, n, ref.Bounds)))
